@@ -282,6 +282,20 @@ class Universe:
             a, b = sorted(((t1, l1), (t2, l2)), key=lambda p: str(p[0]))
             i = self._add(f"U[{a[1]}|{b[1]}]", ts.UnionType((a[0], b[0])))
             self.unions.append((i, (self.index[a[1]], self.index[b[1]])))
+        # a restricted depth-3 family: unions whose members are tuples / lists over the user classes,
+        # int, object, None and Any (a union subtype holding a same-arity tuple member is a distinct
+        # path through the distance visitor)
+        inner = [(lab, t) for lab, t in atoms
+                 if lab.startswith(USER_PREFIX) or lab in ("int", "object", "Any")]
+        nested = [(f"tuple[{lab}]", ts.TupleType((t,))) for lab, t in inner]
+        for lab, t in nested + [(f"list[{lab}]", ts.Instance(list_i, (t,))) for lab, t in inner[:3]]:
+            a, b = sorted(((t, lab), (ts.NONE_TYPE, "None")), key=lambda p: str(p[0]))
+            i = self._add(f"U[{a[1]}|{b[1]}]", ts.UnionType((a[0], b[0])))
+            self.unions.append((i, (self.index[a[1]], self.index[b[1]])))
+        for (l1, t1), (l2, t2) in itertools.combinations(nested, 2):
+            a, b = sorted(((t1, l1), (t2, l2)), key=lambda p: str(p[0]))
+            i = self._add(f"U[{a[1]}|{b[1]}]", ts.UnionType((a[0], b[0])))
+            self.unions.append((i, (self.index[a[1]], self.index[b[1]])))
 
     def _add(self, label, t) -> int:
         # ``list`` is list[Any] after _fixup_known_generics: keep the first label of equal types
@@ -326,7 +340,7 @@ def type_from_label(type_system, users, label: str):
             return ts.TupleType(())
         return ts.TupleType(tuple(atom(a) for a in inner.split(",")))
     if head == "U":
-        items = [atom(a) for a in inner.split("|")]
+        items = [type_from_label(type_system, users, a) for a in inner.split("|")]
         return ts.UnionType(tuple(sorted(items, key=str)))
     cls = {"list": list, "set": set, "dict": dict}[head]
     return ts.Instance(type_system.to_type_info(cls), tuple(atom(a) for a in inner.split(",")))
